@@ -155,7 +155,7 @@ prop("C04",
      bounds="every From/TryFrom impl found in /repo/src on this run, each over the ENTIRE source type "
             "(all 2^128 values for i128/u128, all usize/isize) - no sampling; T::new ok/must-panic over "
             "the whole repr type in configurations default(std) and --no-default-features; MIN/MAX/"
-            "Default; FromStr over all ASCII strings of length 0..=6; "
+            "Default; FromStr over all ASCII strings of length 0..=8 (thorough: 0..=9); "
             "accessor values of all valid messages; constructors, encoders and scanner outputs via the "
             "in-range assertions of the C02/C06/C07/C09/C11/C14 harnesses",
      outside="strings longer than the stated length or containing non-ASCII bytes; unsafe "
@@ -163,8 +163,8 @@ prop("C04",
 prop("C05",
      bounds="every From/TryFrom impl found in /repo/src on this run over the entire source type; "
             "Eq/Ord/PartialOrd/Hash/max/Copy over all pairs of values; MIN/MAX/Default; FromStr over all "
-            "ASCII byte strings of length 0..=6 (both tiers; 128^6 + ... strings per type, decided "
-            "symbolically), unwind 9 with unwinding assertions; Display of every value into a stack buffer",
+            "ASCII byte strings of length 0..=8 (quick) and 0..=9 (thorough) (128^8 + ... strings per type, decided "
+            "symbolically), unwind L+3 with unwinding assertions; Display of every value into a stack buffer",
      outside="strings longer than the bound, non-ASCII bytes, Display with width/fill/precision flags")
 
 # ------------------------------------------------------------------------------------------------
